@@ -495,7 +495,7 @@ mk_file(int32 id, NC_array *arr)
         va->count = nvars;
         va->szof  = sizeof(NC_var *);
         va->len   = 0;
-        va->values = malloc((size_t)nvars * sizeof(NC_var *) + 1);
+        va->values = malloc(((size_t)nvars + 1) * sizeof(NC_var *));
         H4V_ASSUME(va->values != NULL);
         if (idx < nvars)
             ((NC_var **)va->values)[idx] = var;
@@ -508,7 +508,7 @@ mk_file(int32 id, NC_array *arr)
         da->count = ndims;
         da->szof  = sizeof(NC_dim *);
         da->len   = 0;
-        da->values = malloc((size_t)ndims * sizeof(NC_dim *) + 1);
+        da->values = malloc(((size_t)ndims + 1) * sizeof(NC_dim *));
         H4V_ASSUME(da->values != NULL);
         if (idx < ndims)
             ((NC_dim **)da->values)[idx] = dim;
@@ -566,6 +566,7 @@ mk_qlist(int32 index, int for_values)
     H4V_ND(int, list_null);
     H4V_ND(unsigned, nattrs);
     H4V_ND(int, slot_null);
+    H4V_ASSUME(g_namelen <= H4_MAX_NC_NAME);
     if (list_null)
         return NULL;
     H4V_ASSUME(nattrs <= H4_MAX_NC_ATTRS + 1);
@@ -575,7 +576,7 @@ mk_qlist(int32 index, int for_values)
     arr->count  = nattrs;
     arr->szof   = sizeof(NC_attr *);
     arr->len    = 0;
-    arr->values = malloc((size_t)nattrs * sizeof(NC_attr *) + 1);
+    arr->values = malloc(((size_t)nattrs + 1) * sizeof(NC_attr *));
     H4V_ASSUME(arr->values != NULL);
     if (index >= 0 && (unsigned)index < nattrs) {
         NC_attr *at = NULL;
@@ -607,7 +608,6 @@ mk_qlist(int32 index, int for_values)
                 s->values         = NULL;
             }
             else {
-                H4V_ASSUME(g_namelen <= H4_MAX_NC_NAME);
                 H4V_ND_BUF(char, aname, g_namelen + 1, 9);
                 s->count = s->len = g_namelen;
                 s->values         = aname;
